@@ -40,6 +40,8 @@ type validationContext struct {
 	functionName   string
 	loopDepth      int
 	inContinuing   bool
+	switchDepth    int  // switches entered since the innermost enclosing loop body or continuing block: a break at switchDepth > 0 leaves a switch
+	ownContinuing  bool // directly inside the continuing block of the innermost enclosing loop (inContinuing stays true in loops nested in it)
 	expressionUsed map[ExpressionHandle]bool
 }
 
@@ -534,6 +536,7 @@ func (v *Validator) validateStatement(index int, stmt *Statement) {
 			v.addErrorInStatement(index, fmt.Sprintf("selector expression %d does not exist", kind.Selector))
 		}
 		hasDefault := false
+		v.context.switchDepth++
 		for _, c := range kind.Cases {
 			if _, ok := c.Value.(SwitchValueDefault); ok {
 				if hasDefault {
@@ -543,20 +546,28 @@ func (v *Validator) validateStatement(index int, stmt *Statement) {
 			}
 			v.validateBlock(c.Body)
 		}
+		v.context.switchDepth--
 		if !hasDefault {
 			v.addErrorInStatement(index, "switch missing default case")
 		}
 
 	case StmtLoop:
 		oldDepth := v.context.loopDepth
+		oldSwitchDepth := v.context.switchDepth
+		oldOwnContinuing := v.context.ownContinuing
 		v.context.loopDepth++
+		v.context.switchDepth = 0
+		v.context.ownContinuing = false
 
 		v.validateBlock(kind.Body)
 
 		oldContinuing := v.context.inContinuing
 		v.context.inContinuing = true
+		v.context.ownContinuing = true
 		v.validateBlock(kind.Continuing)
 		v.context.inContinuing = oldContinuing
+		v.context.switchDepth = oldSwitchDepth
+		v.context.ownContinuing = oldOwnContinuing
 
 		if kind.BreakIf != nil {
 			if !v.isValidExpressionHandle(*kind.BreakIf) {
@@ -567,18 +578,23 @@ func (v *Validator) validateStatement(index int, stmt *Statement) {
 		v.context.loopDepth = oldDepth
 
 	case StmtBreak:
-		if v.context.loopDepth == 0 {
-			v.addErrorInStatement(index, "break outside of loop")
-		}
-		if v.context.inContinuing {
-			v.addErrorInStatement(index, "break in continuing block")
+		// A break inside a switch leaves the switch and is valid wherever the
+		// switch is; otherwise it must leave a loop, and not from that loop's
+		// own continuing block.
+		if v.context.switchDepth == 0 {
+			if v.context.loopDepth == 0 {
+				v.addErrorInStatement(index, "break outside of loop")
+			}
+			if v.context.ownContinuing {
+				v.addErrorInStatement(index, "break in continuing block")
+			}
 		}
 
 	case StmtContinue:
 		if v.context.loopDepth == 0 {
 			v.addErrorInStatement(index, "continue outside of loop")
 		}
-		if v.context.inContinuing {
+		if v.context.ownContinuing {
 			v.addErrorInStatement(index, "continue in continuing block")
 		}
 
